@@ -882,15 +882,9 @@ where
             .get(&kh.key)
             .filter(|e| TrioArc::ptr_eq(e.value().entry_info(), entry.entry_info()))
             .map(|e| (Arc::clone(e.key()), TrioArc::ptr_eq(e.value(), &entry)));
-        // Use the key object the map holds, so that the deque nodes do not keep a
-        // second copy of the key alive.
-        let (kh, is_latest) = match current_key {
-            Some((key, is_latest)) => (KeyHash::new(key, kh.hash), is_latest),
-            None => return,
-        };
 
         // The entry stays dirty while a newer update of it is still queued.
-        if is_latest {
+        if let Some((_, true)) = current_key {
             entry.set_dirty(false);
         }
 
@@ -907,6 +901,13 @@ where
             deqs.move_to_back_wo(&entry);
             return;
         }
+
+        // Use the key object the map holds, so that the deque nodes do not keep a
+        // second copy of the key alive.
+        let kh = match current_key {
+            Some((key, _)) => KeyHash::new(key, kh.hash),
+            None => return,
+        };
 
         if !self.has_enough_capacity(new_weight, counters)
             && (self.has_expiry() || self.has_valid_after())
@@ -944,6 +945,23 @@ where
         // Try to admit the candidate.
         match Self::admit(&candidate, &self.cache, deqs, freq) {
             AdmissionResult::Admitted {
+                skipped_nodes: s, ..
+            }
+            | AdmissionResult::Rejected { skipped_nodes: s }
+                if !s.is_empty() =>
+            {
+                // Some potential victims could not be examined because their state
+                // is in flux: they have been invalidated, or updated, and the write
+                // op that will tell so is still behind this one in the queue. What
+                // they occupy (and where they are in the LRU order) is outdated, so
+                // neither a rejection nor the eviction of the other victims may be
+                // justified. Admit the candidate and evict nobody now; if the cache
+                // is really over its capacity, the size-based eviction at the end of
+                // this sync run will restore it.
+                skipped_nodes = s;
+                self.handle_admit(kh, &entry, new_weight, deqs, counters);
+            }
+            AdmissionResult::Admitted {
                 victim_nodes,
                 skipped_nodes: mut skipped,
             } => {
@@ -980,17 +998,6 @@ where
                 skipped_nodes = skipped;
 
                 // Add the candidate to the deques.
-                self.handle_admit(kh, &entry, new_weight, deqs, counters);
-            }
-            AdmissionResult::Rejected { skipped_nodes: s } if !s.is_empty() => {
-                // Some potential victims could not be examined because their state
-                // is in flux: they have been invalidated, or updated, and the write
-                // op that will tell so is still behind this one in the queue. What
-                // they occupy (and where they are in the LRU order) is outdated, so
-                // the rejection may be unjustified. Admit the candidate; if the cache
-                // is really over its capacity, the size-based eviction at the end of
-                // this sync run will restore it.
-                skipped_nodes = s;
                 self.handle_admit(kh, &entry, new_weight, deqs, counters);
             }
             AdmissionResult::Rejected { skipped_nodes: s } => {
